@@ -121,15 +121,113 @@ Fixpoint conf_path (c : nat) (before : list dstep) : option nat :=
 Definition cert_at (p : option nat) (before : list dstep) : option nat :=
   match p with Some p => last_install p before | None => None end.
 
+(* ---- "the entity's OWN configuration": an entity built from a python configuration file dir/base.py is the entity
+   that file describes.  The certificate the property speaks of is the one ITS file names - not the one a file of the
+   same name in another directory names, not the one another module of that name, loaded earlier, named.
+   src_now: what the file says now (None: there is no such file).  src_versions: everything the file has said so far
+   (the property text knows entities, not time: an entity that works with what its own file said when the process
+   read it - importlib keeps a module - signs with a key of its OWN, the certificate it publishes is the matching
+   one; whether the process ought to have read the file again is not this property's business.  The STRICT reading
+   - what the file says when the entity is built - is `published`; theorems give both). ---- *)
+Definition same_file (d b d' b' : nat) : bool := Nat.eqb d' d && Nat.eqb b' b.
+
+Fixpoint src_now (dr b : nat) (before : list dstep) : option nat :=
+  match before with
+  | [] => None
+  | DWrite d' b' p :: r => if same_file dr b d' b' then Some p else src_now dr b r
+  | DUnlink d' b' :: r => if same_file dr b d' b' then None else src_now dr b r
+  | _ :: r => src_now dr b r
+  end.
+
+Fixpoint src_versions (dr b : nat) (before : list dstep) : list nat :=
+  match before with
+  | [] => []
+  | DWrite d' b' p :: r => if same_file dr b d' b' then p :: src_versions dr b r else src_versions dr b r
+  | _ :: r => src_versions dr b r
+  end.
+
+Definition olist {A} (o : option A) : list A := match o with Some x => [x] | None => [] end.
+
+(* strict: one certificate per entity.  An entity built from a FILE always has a slot; 0 = "there must be no such
+   entity" (no such file, or nothing installed at the path it names) *)
+Definition slot (o : option nat) : nat := match o with Some k => k | None => 0 end.
+
 Fixpoint certs_from (before : list dstep) (d : list dstep) : list nat :=
   match d with
   | [] => []
   | DCreate p :: r => ocons (last_install p before) (certs_from (DCreate p :: before) r)
+  | DFactory p :: r => ocons (last_install p before) (certs_from (DFactory p :: before) r)
   | DBuild c :: r => ocons (cert_at (conf_path c before) before) (certs_from (DBuild c :: before) r)
+  | DLoadFile dr b a s :: r =>
+      slot (cert_at (src_now dr b before) before) :: certs_from (DLoadFile dr b a s :: before) r
   | s :: r => certs_from (s :: before) r
   end.
 
 Definition published (d : list dstep) : list nat := certs_from [] d.
+
+(* per entity: the certificates its OWN configuration source accounts for - for a dict or a Config object the one
+   installed at the path it names when the entity is built; for a file: the ones installed NOW at the paths the file
+   has named (key and certificate files are read when the entity is built) *)
+Fixpoint accounted_from (before : list dstep) (d : list dstep) : list (list nat) :=
+  match d with
+  | [] => []
+  | DCreate p :: r => ocons (option_map (fun k => [k]) (last_install p before)) (accounted_from (DCreate p :: before) r)
+  | DFactory p :: r => ocons (option_map (fun k => [k]) (last_install p before)) (accounted_from (DFactory p :: before) r)
+  | DBuild c :: r =>
+      ocons (option_map (fun k => [k]) (cert_at (conf_path c before) before)) (accounted_from (DBuild c :: before) r)
+  | DLoadFile dr b a s :: r =>
+      flat_map (fun p => olist (last_install p before)) (src_versions dr b before)
+      :: accounted_from (DLoadFile dr b a s :: before) r
+  | s :: r => accounted_from (s :: before) r
+  end.
+
+Definition accounted (d : list dstep) : list (list nat) := accounted_from [] d.
+
+(* entity by entity: the certificate it holds (0: the entity does not exist - nothing is signed) is one its own
+   source accounts for; and there are exactly the entities the script makes *)
+Fixpoint own_source (al : list (list nat)) (certs : list nat) : Prop :=
+  match al, certs with
+  | [], [] => True
+  | a :: al', c :: certs' => (c = 0 \/ In c a) /\ own_source al' certs'
+  | _, _ => False
+  end.
+
+Fixpoint own_source_b (al : list (list nat)) (certs : list nat) : bool :=
+  match al, certs with
+  | [], [] => true
+  | a :: al', c :: certs' => (Nat.eqb c 0 || existsb (Nat.eqb c) a) && own_source_b al' certs'
+  | _, _ => false
+  end.
+
+(* hypotheses of the theorems about files (inputs, not outputs).
+   files_present: every file an entity is built from exists at that moment;
+   no_reedit: no configuration file is written or removed once a file of that BASE NAME has been loaded *)
+Fixpoint base_loaded (b : nat) (before : list dstep) : bool :=
+  match before with
+  | [] => false
+  | DLoadFile _ b' _ _ :: r => Nat.eqb b' b || base_loaded b r
+  | _ :: r => base_loaded b r
+  end.
+
+Fixpoint files_present_from (before : list dstep) (d : list dstep) : bool :=
+  match d with
+  | [] => true
+  | DLoadFile dr b a s :: r =>
+      match src_now dr b before with Some _ => true | None => false end
+      && files_present_from (DLoadFile dr b a s :: before) r
+  | s :: r => files_present_from (s :: before) r
+  end.
+
+Fixpoint no_reedit_from (before : list dstep) (d : list dstep) : bool :=
+  match d with
+  | [] => true
+  | DWrite dr b p :: r => negb (base_loaded b before) && no_reedit_from (DWrite dr b p :: before) r
+  | DUnlink dr b :: r => negb (base_loaded b before) && no_reedit_from (DUnlink dr b :: before) r
+  | s :: r => no_reedit_from (s :: before) r
+  end.
+
+Definition files_present (d : list dstep) : bool := files_present_from [] d.
+Definition no_reedit (d : list dstep) : bool := no_reedit_from [] d.
 
 Arguments keys {sigv}.
 Arguments gon {sigv}.
